@@ -629,6 +629,25 @@ class Fn:
                                 for v, nm in names.items():
                                     if v not in covered:
                                         res.setdefault(nm, (b, other))
+        # bool payload of the success variant (`if x.is_ancestor(..)? { .. }`)
+        if res:
+            pl = set()
+            for s in self.stmts():
+                if s.rv_kind() == "use" and s.place is not None and not s.place.proj:
+                    o = Operand(s.rv[1])
+                    if o.place is not None and o.place.local in al and any(pr[0] == "v" and pr[1] in ("Continue", "Ok", "Some") for pr in o.place.proj):
+                        pl.add(s.place.local)
+            pal = set()
+            for l in pl:
+                if self.local_ty(l) == "bool":
+                    pal |= self.forward_aliases(l)
+            for b in range(self.nblocks):
+                sw = self.switch_on(b)
+                if sw and sw[0].place is not None and sw[0].place.local in pal and not sw[0].place.proj:
+                    arms, other = sw[1], sw[2]
+                    if 0 in arms:
+                        res.setdefault("payload_false", (b, arms[0]))
+                        res.setdefault("payload_true", (b, other))
         # bool result
         if not res:
             for b in range(self.nblocks):
@@ -753,6 +772,58 @@ class Fn:
                     if a.place is not None and field in a.place.fields():
                         return True
         return False
+
+    def upvar_names(self):
+        """closure env field index -> captured variable name"""
+        out = {}
+        for up in self.j.get("upvars", []):
+            for pr in up["place"]["p"]:
+                if pr[0] == "f":
+                    out[pr[1]] = up["name"]
+                    break
+        return out
+
+    def origins(self, operand, through_calls="*", max_depth=30):
+        """Where an operand's value comes from: {'arg:<n>', 'argname:<name>', 'upvar:<name>', 'field:<f>', 'call:<name>', 'const'}"""
+        out = set()
+        if operand is None:
+            return out
+        if operand.const is not None:
+            out.add("const")
+            return out
+        ups = self.upvar_names() if self.kind == "Closure" else {}
+
+        def place_tags(p):
+            if 1 <= p.local <= self.nargs:
+                if self.kind == "Closure" and p.local == 1:
+                    fs = [pr for pr in p.proj if pr[0] == "f"]
+                    if fs and fs[0][1] in ups:
+                        out.add("upvar:" + ups[fs[0][1]])
+                        for pr in fs[1:]:
+                            out.add("field:" + (pr[2] or str(pr[1])))
+                        return
+                out.add("arg:%d" % p.local)
+                nm = self.local_name(p.local)
+                if nm:
+                    out.add("argname:" + nm)
+            for f in p.fields():
+                out.add("field:" + f)
+        place_tags(operand.place)
+        locs, sites = self.backward_sources(operand.place.local, max_depth=max_depth, through_calls=through_calls)
+        for k, d in sites:
+            if k == "stmt":
+                for p in d.src_places():
+                    place_tags(p)
+                for o in d.operands():
+                    if o.const is not None:
+                        out.add("const")
+            else:
+                out.add("call:" + (d.name or "?"))
+                if through_calls == "*" or d.is_(*through_calls):
+                    for a in d.args:
+                        if a.place is not None:
+                            place_tags(a.place)
+        return out
 
     def field_stores(self, field):
         """Statements that write a place whose last field is `field` (e.g. `(*self).state = ..`)."""
